@@ -105,8 +105,8 @@ def strip_pattern():
     """the parameter-name strip pattern for the current PREFIX: literally "^_p_", or - same effect on every name the
     programs use - the generic spelling "^_[^_]+_" (a leading underscore group); the latter only for prefixes of that shape"""
     if GENERIC_PATTERN and PREFIX.startswith("_") and PREFIX.endswith("_") and "_" not in PREFIX[1:-1]:
-        return "^_[^_]+_"
-    return "^" + PREFIX
+        return "^_[^_]+_|_s$"
+    return "^" + PREFIX + "|_s$"           # a prefix or the suffix "_s" (AggAlphabet.StripTbl)
 
 
 def make_settings(inc=None, pats=None, trigger=TRIGGER, **rst):
@@ -503,7 +503,10 @@ def render_variant(items, trivia, vseed):
                 out.append(dind + (("# " + l) if l else "#") + "\n")
             out.append(dind + "#]]")
             # between a doccomment and its command: at least a line ending, then any trivia
-            out.append(rng.choice(["\n", " \n", "\n\n", "\n# a line comment\n", " #[[ bracket ]] \n", "\n#[=[ (\" ]=]\n"]))
+            # (incl. a line comment that looks like a commented-out call, and a level-1 bracket comment whose lines,
+            # the closing one too, begin with '#')
+            out.append(rng.choice(["\n", " \n", "\n\n", "\n# a line comment\n", " #[[ bracket ]] \n", "\n#[=[ (\" ]=]\n",
+                                   "\n# %s(arg)  <- typical call\n" % it["name"], "\n#[=[\n# commented(out)\n#]=]\n"]))
         name = "".join(ch.upper() if rng.random() < 0.5 else ch.lower() for ch in it["name"])
         out.append(ind + name + rng.choice(["", " ", "\t", "  "]) + "(")
         args = it["args"]
